@@ -11,6 +11,7 @@ Python equivalents of engineering Excel functions.
 """
 import itertools
 import functools
+import numpy as np
 import schedula as sh
 from . import wrap_func, flatten, Error, XlError
 
@@ -24,7 +25,9 @@ def _parseX(x):
         if isinstance(x, XlError):
             return x
         x = sh.EMPTY is not x and x or '0'
-        if isinstance(x, int) or (isinstance(x, float) and x.is_integer()):
+        if isinstance(x, (int, np.integer)) or (
+                isinstance(x, float) and x.is_integer()
+        ):  # A numeral given as a number (also a numpy one).
             x = x >= 0 and str(int(x)) or x
         if not (not isinstance(x, str) or len(x) > 10):
             return x
